@@ -204,7 +204,7 @@ def check_op(
     ``result_of``: maps the returned value to the part that is subject to the independence clauses.
     """
     names = list(operands)
-    n_op_arrays = sum(1 for n in names if n != inplace for _, a in arrays_of(operands[n]) if a.size)
+    n_op_arrays = sum(1 for n in names for _, a in arrays_of(operands[n]) if a.size)
     before = {n: snap(operands[n]) for n in names if n != inplace}
     try:
         ret = call()
@@ -226,7 +226,9 @@ def check_op(
     if result_of is not None and inplace is None:
         result = result_of(ret)
     res_arrays = [(p, a) for p, a in arrays_of(result) if a.size]
-    ctx.nt = bool(n_op_arrays and res_arrays)
+    # non-trivial: the call returned and there was at least one non-empty operand array to protect (clause 1); the
+    # independence clauses (2a-2c) additionally need an array in the result -- labelled, so the share is visible
+    ctx.nt = bool(n_op_arrays)
     ctx.label("result-has-arrays" if res_arrays else "result-no-arrays")
     if not res_arrays:
         return ret
